@@ -456,6 +456,48 @@ class Main {
       "go\nonce\nonce\n7\n0\n5\nskip\n14",
       None,
     ),
+
+    demo(
+      "enums whose payload is stored unboxed, methods as function values",
+      r#"class Box(val v: int) {}
+class Point(val x: int, val y: int) {}
+class One(Only(Box)) {}
+class Shape(Circle(Point), Rect(Point, Point)) {
+  method area(): int = match (this) { Circle(p) -> p.x * p.y, Rect(a, b) -> (b.x - a.x) * (b.y - a.y) }
+}
+class Tree(Leaf(Box), Node(Tree, Tree), Empty) {
+  method sum(): int = match (this) { Leaf(b) -> b.v, Node(l, r) -> l.sum() + r.sum(), Empty -> 0 }
+}
+class Flag(On, Off) {}
+class Counter(val n: int) {
+  method down(k: int): int = if k == 0 { this.n } else { this.down(k - 1) }
+  method plus(k: int): int = this.n + k
+}
+class Main {
+  function show(b: bool): unit = Process.println(if b { "T" } else { "F" })
+  function twice(f: (int) -> int, x: int): int = f(f(x))
+  function main(): unit = {
+    let Only(b) = One.Only(Box.init(5));
+    let _ = Process.println(Str.fromInt(b.v));
+    let _ = Process.println(Str.fromInt(Shape.Circle(Point.init(3, 4)).area()) :: " " :: Str.fromInt(Shape.Rect(Point.init(1, 1), Point.init(4, 6)).area()));
+    let t = Tree.Node(Tree.Leaf(Box.init(1)), Tree.Node(Tree.Empty(), Tree.Leaf(Box.init(41))));
+    let _ = Process.println(Str.fromInt(t.sum()));
+    let nt = !(9 > b.v);
+    let _ = Main.show(nt);
+    let _ = Main.show(nt == false);
+    let c = Counter.init(9);
+    let f = c.down;
+    let g = c.plus;
+    let _ = Process.println(Str.fromInt(f(3)) :: " " :: Str.fromInt(Main.twice(g, 1)) :: " " :: Str.fromInt(Main.twice(f, 2)));
+    let v = Vec.empty<Flag>();
+    let _ = v.push(Flag.On());
+    let _ = v.push(Flag.Off());
+    let _ = Process.println(Str.fromInt(v.length()) :: (match (v.get(1)) { On -> " on", Off -> " off" }));
+  }
+}"#,
+      "5\n12 15\n42\nF\nT\n9 19 9\n2 off",
+      None,
+    ),
   ]
 }
 
